@@ -42,6 +42,20 @@ fn address_pool() -> &'static Vec<Address> {
       let script = ScriptBuf::new_p2wpkh(&WPubkeyHash::from_byte_array([k; 20]));
       pool.push(Address::from_script(&script, NETWORK).unwrap());
     }
+    // legacy and script-hash recipients have higher dust limits (546 / 540)
+    for k in 1u8..=2 {
+      let mut p2pkh = vec![0x76, 0xa9, 0x14];
+      p2pkh.extend([k; 20]);
+      p2pkh.extend([0x88, 0xac]);
+      pool.push(Address::from_script(bitcoin::Script::from_bytes(&p2pkh), NETWORK).unwrap());
+      let mut p2sh = vec![0xa9, 0x14];
+      p2sh.extend([k; 20]);
+      p2sh.push(0x87);
+      pool.push(Address::from_script(bitcoin::Script::from_bytes(&p2sh), NETWORK).unwrap());
+      let mut p2wsh = vec![0x00, 0x20];
+      p2wsh.extend([k; 32]);
+      pool.push(Address::from_script(bitcoin::Script::from_bytes(&p2wsh), NETWORK).unwrap());
+    }
     pool
   })
 }
@@ -478,6 +492,9 @@ fn value_strategy() -> BoxedStrategy<u64> {
     1 => Just(20_000u64),
     1 => Just(330u64),
     1 => Just(294u64),
+    1 => Just(546u64),
+    1 => Just(540u64),
+    2 => 250u64..1200,
     1 => Just(2_100_000_000_000_000u64),
   ]
   .boxed()
@@ -486,7 +503,7 @@ fn value_strategy() -> BoxedStrategy<u64> {
 fn builder_strategy() -> BoxedStrategy<BuilderCase> {
   let utxo = (
     value_strategy(),
-    0u8..14,
+    0u8..20,
     proptest::bool::weighted(0.1),
     proptest::bool::weighted(0.1),
     prop_oneof![
@@ -524,7 +541,7 @@ fn builder_strategy() -> BoxedStrategy<BuilderCase> {
     1 => Just(TargetSpec::Value(u64::MAX / 2)),
   ];
   let recipient = prop_oneof![
-    8 => (0u8..14).prop_map(Recipient::Address),
+    8 => (0u8..20).prop_map(Recipient::Address),
     2 => proptest::collection::vec(any::<u8>(), 0..40).prop_map(Recipient::OpReturn),
   ];
   let offset = prop_oneof![
@@ -575,7 +592,7 @@ pub fn c20(s: &mut Session) -> Meta {
   s.run_part(Part::new("send", cases, builder_strategy, builder_check).shrink_iters(3000));
   Meta {
     level: "exploration",
-    rule: "Wallet states of 0..13 UTXOs (values 1 sat .. 21M BTC, log-distributed with many around dust, 10,000 and 20,000; total <= supply), inscriptions at arbitrary offsets (0, end, several per output), runic and locked subsets, outgoing satpoint (inscribed, cardinal, exact small offsets, out of range, not in wallet), recipient (p2tr, p2wpkh or OP_RETURN burn script), change addresses (distinct or equal, possibly equal to the recipient), fee rate 0 .. f64::MAX incl. fractional, target Postage / ExactPostage(v) / Value(v) incl. 0 and huge. Oracle: a panic is a violation; Err is fine; Ok(tx) is validated by an independent checker (outgoing sat first in the single recipient output by FIFO over the chosen inputs; no other inscription to the recipient or into fees; no runic/locked/other inscribed input; all other outputs are the change scripts, each at most once; no dust; value >= v for Value, <= cap + fee(43 vB) for postage targets; fee == rate × vsize with 64-byte witnesses). Non-trivial = Ok result with >= 2 inputs and an alignment or change output; distinct by case.",
+    rule: "Wallet states of 0..13 UTXOs (values 1 sat .. 21M BTC, log-distributed with many around dust, 10,000 and 20,000; total <= supply), inscriptions at arbitrary offsets (0, end, several per output), runic and locked subsets, outgoing satpoint (inscribed, cardinal, exact small offsets, out of range, not in wallet), recipient (p2tr, p2wpkh, p2pkh, p2sh, p2wsh or OP_RETURN burn script), change addresses (distinct or equal, possibly equal to the recipient), fee rate 0 .. f64::MAX incl. fractional, target Postage / ExactPostage(v) / Value(v) incl. 0 and huge. Oracle: a panic is a violation; Err is fine; Ok(tx) is validated by an independent checker (outgoing sat first in the single recipient output by FIFO over the chosen inputs; no other inscription to the recipient or into fees; no runic/locked/other inscribed input; all other outputs are the change scripts, each at most once; no dust; value >= v for Value, <= cap + fee(43 vB) for postage targets; fee == rate × vsize with 64-byte witnesses). Non-trivial = Ok result with >= 2 inputs and an alignment or change output; distinct by case.",
     assumptions: &[
       "UTXO values are >= 1 sat (the property quantifies over 'values from dust to large'); zero-value wallet outputs are outside the generated domain",
       "Inscription offsets lie inside their outputs, as the index guarantees (C04)",
